@@ -18,6 +18,7 @@ def run(tier, seed):
         run_hex(rep, f"H7xSL direct prune={prune}", universe="H7", values=("S", "L"), prune=prune, props=P, forms=("m", "i"))
         run_hex(rep, f"H5xSL batch<=1 prune={prune}", universe="H5", values=("S", "L"), prune=prune, props=P, batch_len=1,
                 exits=("commit", "abort"))
+        run_hex(rep, f"HW4xSL direct prune={prune} (slots 0 and 15, branch value)", universe="HW4", values=("S", "L"), prune=prune, props=P)
     if tier == "thorough":
         for prune in (False, True):
             run_hex(rep, f"H9xSL direct prune={prune}", universe="H9", values=("S", "L"), prune=prune, props=P)
